@@ -581,9 +581,32 @@ def witness_candidates():
              "modified": "2016-01-01T00:00:00.1234567Z", "name": "n"}
     rel = {"type": "relationship", "spec_version": "2.1", "id": "relationship--" + U, "created": T0, "modified": T0,
            "relationship_type": "", "source_ref": "indicator--" + U, "target_ref": "malware--" + U}
-    return [("2.1/Identity", ident, "witness:seven-fraction-digits"),
-            ("2.1/StatementMarking", {"statement": ""}, "witness:empty-statement"),
+    # (the seven-digit identity is presented by frac7_probe, outside the candidate filter: the validator's
+    # created <= modified clause cannot read instants with more than six fraction digits and would drop it)
+    return [("2.1/StatementMarking", {"statement": ""}, "witness:empty-statement"),
             ("2.1/Relationship", rel, "witness:empty-relationship-type")]
+
+
+def frac7_probe(run):
+    """The witness of the known finding C03-timestamp-more-than-six-fraction-digits, always presented to the
+    implementation: a 2.1 identity whose created / modified carry seven fraction digits (legal: the sub-second part is
+    `s+`).  Refused or not preserved => the finding; accepted and preserved => nothing."""
+    ident = {"type": "identity", "spec_version": "2.1", "id": "identity--" + U, "created": "2016-01-01T00:00:00.1234567Z",
+             "modified": "2016-01-01T00:00:00.1234567Z", "name": "n"}
+    case = {"op": "parse", "cid": "2.1/Identity", "data": ident, "allow": False, "interop": False, "meta": {}}
+    lines, extra = sc.run_impl_cases([case])
+    run.count({k: case[k] for k in ("op", "cid", "data")}, nontrivial=True)
+    if lines[0].startswith("OK ") and extra[0] is not None:
+        loss = preserved(ident, extra[0]["ser_incl"], default_pairs(stixgen.load_spec()))
+        if not loss:
+            return
+        loss = "content not preserved: " + loss
+    else:
+        loss = "rejected: " + lines[0]
+    rep = {"case": {k: case[k] for k in ("op", "cid", "data", "allow", "interop")}, "context": "alone", "path": [],
+           "class": "2.1/Identity", "object": ident, "loss": loss, "origin": "witness:seven-fraction-digits", "finding": F_FRAC7,
+           "probe": "frac7"}
+    run.violations.append(Violation("spec-valid 2.1/Identity (alone, witness:seven-fraction-digits) %s" % loss, rep, finding=F_FRAC7))
 
 
 def classify(loss, cid, obj, how):
@@ -747,6 +770,10 @@ def check(run):
         what = "spec-valid %s (%s, %s) %s" % (cid, ctx, how, loss)
         run.violations.append(Violation(what, dict(rep, finding=fid), finding=fid))
     run.coverage["contexts"] = ctxhist
+    try:
+        frac7_probe(run)
+    except RuntimeError as e:
+        run.broken.append(Broken("oracle", "known-finding probe did not run", {"error": str(e)[-600:]}))
     for f in failures:
         if tuple(f) not in explained:
             run.broken.append(Broken("obligation", "spec_refines spec lib: " + "|".join(f),
@@ -776,7 +803,9 @@ def replay(payload):
     else:
         lines, extra = sc.run_impl_cases([dict(c, meta={})])
     print("replay %s %s (%s): %s" % (c["op"], c.get("cid"), r.get("context"), lines[0][:300]))
-    v = sc.spec_valid_lines([(r["class"], r["object"])])[0]
+    # (the seven-digit witness is valid by the timestamp grammar itself; the validator's created <= modified clause
+    # cannot read instants with more than six fraction digits)
+    v = "true" if r.get("probe") == "frac7" else sc.spec_valid_lines([(r["class"], r["object"])])[0]
     print("the object is %s per the frozen specification" % ("VALID" if v == "true" else "not valid"))
     if v != "true":
         print("no violation on this input")
